@@ -42,7 +42,7 @@ def gen_matrix(rng, maxn=9, exact=True):
             vals = [v for row in m for v in row]
             thr_pool.append((rng.choice(vals) + rng.choice(vals)) / 2)
     else:
-        m = sym(n, lambda i, j: round(rng.random(), rng.choice([1, 2, 6])))
+        m = sym(n, lambda i, j: round(rng.random(), rng.choice([1, 2, 6, 17, 17])))     # 17 digits: the double as it is
         thr_pool = [v for row in m for v in row] + [rng.random(), 0.5, -1.0, 2.0]
     t = rng.choice(thr_pool)
     return m, float(t)
